@@ -635,8 +635,9 @@ class _Classification(_Algorithm):
             max_scale = self._size // 4
             scales = range(min_scale, max_scale)
         else:
-            scales = np.atleast_1d(scales).reshape(-1)
-            max_scale = scales.max()
+            # python scalars so that narrow or unsigned integer scales cannot overflow or wrap around
+            scales = np.atleast_1d(scales).reshape(-1).tolist()
+            max_scale = max(scales)
 
         shannon_old = -np.inf
         shannon_current = -np.inf
